@@ -12,7 +12,7 @@ SPEC = dict(
     nontrivial=nontrivial,
     rule="cases = random histories on a real InMemCollector (2 parked workers, fake clock, recording MockTransmission): span arrivals "
          "(client rates 0,1,2,3,10,100,2^31-2,2^31-1 and random < 2^31; spans, span events, links, roots), decisions of one trace by the "
-         "environment's real sampler (deterministic 1/2/10/2^32+1, rules with keep/drop/zero rules) or by a scripted sampler answer "
+         "environment's real sampler (deterministic 1/2/10/2^32+1 -- the last keeps next to nothing since fix 2ccad7d --, rules with keep/drop/zero rules) or by a scripted sampler answer "
          "(rates 1..2^64-1 incl. 2^32-1, 2^32, 2^32+1), sendTraces on one decided trace, ProcessSpanImmediately with the real "
          "StressRelief.GetSampleRate (SamplingRate 1,2,3,100,2^32,2^32+7; two trace ids whose hash is kept at 2^32), reloads toggling "
          "DryRun and the decoration options, plus stateless probes of the real samplers' rate floor (DeterministicSampler, RulesBasedSampler, "
